@@ -26,8 +26,10 @@ dist_s = st.one_of(S.floats(0.0, 2e7), S.floats(0.0, 2e7), S.log_uniform(1e-3, 2
                    st.sampled_from([0.0, 1e-3, 1.0, 1e7, 2e7, 10001965.729]))
 ell_s = S.ellipsoid_spec(280.0, 320.0)
 
-cases = st.fixed_dictionaries({"lat1": lat1_s, "lon1": lon1_s, "az": az_s, "s": dist_s, "ell": ell_s, "kind": S.angle_kind,
-                               "defaults": st.booleans()})
+cases = st.fixed_dictionaries({"lat1": S.whole_sometimes(lat1_s), "lon1": S.whole_sometimes(lon1_s), "az": S.whole_sometimes(az_s),
+                               "s": S.whole_sometimes(dist_s), "ell": ell_s, "kind": S.angle_kind,
+                               "kinds": st.one_of(st.none(), st.none(), st.none(), st.lists(S.angle_kind, min_size=3, max_size=3)),
+                               "num": S.num_kind, "defaults": st.booleans()})
 
 
 def selftest():
@@ -43,16 +45,20 @@ def check_direct(case):
     ell = S.make_ellipsoid(case["ell"])
     a, invf = S.ellipsoid_params(case["ell"])
     k = case["kind"]
-    lat_o, lon_o, az_o = S.angle_obj(k, case["lat1"]), S.angle_obj(k, case["lon1"]), S.angle_obj(k, case["az"])
+    ks = case.get("kinds") or [k, k, k]       # each angle argument in its own representation (usually the same one)
+    lat_o, lon_o, az_o = S.angle_obj(ks[0], case["lat1"]), S.angle_obj(ks[1], case["lon1"]), S.angle_obj(ks[2], case["az"])
     lat1, lon1, az = S.obj_dec(lat_o), S.obj_dec(lon_o), S.obj_dec(az_o)
     if not (-90.0 <= lat1 <= 90.0):
         raise Discard()
+    nk = case.get("num", "float")
+    lat_o, lon_o, az_o = (S.as_kind(v, nk) if type(v) is float else v for v in (lat_o, lon_o, az_o))
+    s_arg = S.as_kind(case["s"], nk)          # Python int / numpy float64 where they hold the value
     if case["ell"] == "grs80" and case.get("defaults"):
-        got = gd.vincdir(lat_o, lon_o, az_o, case["s"])                  # default ellipsoid left out
+        got = gd.vincdir(lat_o, lon_o, az_o, s_arg)                      # default ellipsoid left out
     elif case.get("defaults"):
-        got = gd.vincdir(lat1=lat_o, lon1=lon_o, azimuth1to2=az_o, ell_dist=case["s"], ellipsoid=ell)
+        got = gd.vincdir(lat1=lat_o, lon1=lon_o, azimuth1to2=az_o, ell_dist=s_arg, ellipsoid=ell)
     else:
-        got = gd.vincdir(lat_o, lon_o, az_o, case["s"], ell)
+        got = gd.vincdir(lat_o, lon_o, az_o, s_arg, ell)
     if not (isinstance(got, tuple) and len(got) == 3):
         raise Fail("vincdir did not return (lat2, lon2, azimuth2to1)", observed=repr(got))
     lat2, lon2, az21 = got
@@ -70,7 +76,7 @@ def check_direct(case):
             raise Fail("reverse azimuth differs from the geodesic's azimuth at the end point + 180 by more than 1e-8 deg",
                        expected={"azimuth2to1": (e_az + 180.0) % 360.0, "tol_deg": 1e-8},
                        observed={"azimuth2to1": az21, "diff_deg": da})
-    if k != "float":
+    if any(v != "float" for v in ks) or nk != "float":
         plain = gd.vincdir(lat1, lon1, az, case["s"], ell)
         if tuple(plain) != tuple(got):
             raise Fail("vincdir with angle objects differs from the call with their decimal-degree values",
@@ -79,6 +85,10 @@ def check_direct(case):
 
 def _classes(case):
     out = ["ell:" + (case["ell"] if isinstance(case["ell"], str) else "custom"), "kind:" + case["kind"]]
+    if case.get("kinds") and len(set(case["kinds"])) > 1:
+        out.append("mixed-representations")
+    if case.get("num", "float") != "float":
+        out.append("num:" + case["num"] + ("(whole distance)" if float(case["s"]).is_integer() else ""))
     azm = case["az"] % 360.0
     if case["lat1"] == 0.0 and azm in (90.0, 270.0):
         out.append("equatorial")
